@@ -394,7 +394,7 @@ EXPECTED_FINGERPRINTS = {'cnodes.py:Cnodes.__init__': 'd50cbb184ffa54ce',
  'schematics/components/cpt.py:Cpt.offset': 'a82a881e162e4816',
  'schematics/components/cpt.py:Cpt.process_implicit_nodes': 'e179961880e99120',
  'schematics/components/cpt.py:Cpt.required_node_names': 'f496b4c19c6ebc3b',
- 'schematics/components/cpt.py:Cpt.required_pins': '5d987e2d1e338559',
+ 'schematics/components/cpt.py:Cpt.required_pins': 'f218ac665f1b3820',
  'schematics/components/cpt.py:Cpt.right': '182b0ab81796a598',
  'schematics/components/cpt.py:Cpt.scale': '9ab5309bd1156928',
  'schematics/components/cpt.py:Cpt.scales': 'a5a9bc35f5994f59',
